@@ -199,6 +199,11 @@ func RDirCtx(c *core.Ctx) {
 				if firstCh != nil && core.Callee(info, x) == firstCh {
 					uses = append(uses, dirUse{fd, fn, x.Pos(), types.ExprString(x)})
 				}
+			case *ast.SliceExpr:
+				// X.Str[k:] / X.Str[:k]: dropping ONE end of a literal — which end was consumed depends on the direction
+				if core.FieldOf(info, x.X) == strField && (x.Low == nil) != (x.High == nil) {
+					uses = append(uses, dirUse{fd, fn, x.Pos(), "one-sided cut " + types.ExprString(x)})
+				}
 			}
 			return true
 		})
